@@ -408,6 +408,7 @@ func aliasBytesCase(seed uint64) run.Case {
 		// ---- repeated hand-outs of one object; the engine-level API (alias_repeat.go)
 		x.repeated()
 		x.engineAPI()
+		x.engineListings()
 		return fmt.Sprintf(`{"bytes":"%016x","docs":%d,"viol":%d,"notes":%q}`, seed, n, len(x.viols), strings.Join(x.notes, ","))
 	})
 	tags := []string{"bytes-probe"}
